@@ -11,6 +11,8 @@
 (* Events (one ndjson line each, ordered by one global sequence number     *)
 (* taken while the channel lock is held for the lock-protected ones):      *)
 (*   Reset(cap)                       start of a new, independent trace    *)
+(*   SendCall(item, kind)             a send operation begins; kind is     *)
+(*                                    "send" | "try" | "block"             *)
 (*   Send(item, pushed, trunc, qlen)  critical section of Sender::send     *)
 (*   TrySend(item, code, qlen)        code 0 ok, 1 full, 2 closed          *)
 (*   SendRet(item, res)               a fallible/blocking send returned    *)
@@ -50,10 +52,11 @@ VARIABLES
     reg,        \* flush requests: function watcher -> set of items accepted before it
     fired,      \* watchers whose callback has been invoked
     closing,    \* a drop of sender or receiver has begun
-    senderGone, recvGone, exited
+    senderGone, recvGone, exited,
+    kind        \* function item -> which send operation it was given to
 
 vars == <<l, cap, queue, acc, done, trunc, ntrunc, batch, cur, phase, lastRem, attempts,
-          lastWait, reg, fired, closing, senderGone, recvGone, exited>>
+          lastWait, reg, fired, closing, senderGone, recvGone, exited, kind>>
 
 SeqSet(q) == {q[i] : i \in 1..Len(q)}
 E == Rec[l]
@@ -63,7 +66,7 @@ Fresh ==
     /\ queue = <<>> /\ acc = <<>> /\ done = {} /\ trunc = {} /\ ntrunc = 0
     /\ batch = <<>> /\ cur = <<>> /\ phase = "idle" /\ lastRem = <<>> /\ attempts = 0
     /\ lastWait = 0 /\ reg = <<>> /\ fired = {} /\ closing = FALSE
-    /\ senderGone = FALSE /\ recvGone = FALSE /\ exited = FALSE
+    /\ senderGone = FALSE /\ recvGone = FALSE /\ exited = FALSE /\ kind = <<>>
 
 Init == l = 1 /\ cap = 1 /\ Fresh
 
@@ -73,7 +76,14 @@ Reset ==
     /\ queue' = <<>> /\ acc' = <<>> /\ done' = {} /\ trunc' = {} /\ ntrunc' = 0
     /\ batch' = <<>> /\ cur' = <<>> /\ phase' = "idle" /\ lastRem' = <<>> /\ attempts' = 0
     /\ lastWait' = 0 /\ reg' = <<>> /\ fired' = {} /\ closing' = FALSE
-    /\ senderGone' = FALSE /\ recvGone' = FALSE /\ exited' = FALSE
+    /\ senderGone' = FALSE /\ recvGone' = FALSE /\ exited' = FALSE /\ kind' = <<>>
+
+SendCall ==
+    /\ IsEv("SendCall")
+    /\ E.item \notin DOMAIN kind
+    /\ kind' = (E.item :> E.kind) @@ kind
+    /\ UNCHANGED <<cap, queue, acc, done, trunc, ntrunc, batch, cur, phase, lastRem, attempts,
+                   lastWait, reg, fired, closing, senderGone, recvGone, exited>>
 
 Open == ~senderGone /\ ~recvGone
 
@@ -86,6 +96,8 @@ Send ==
            q1 == IF full THEN <<>> ELSE queue
        IN /\ E.trunc = full
           /\ E.item \notin SeqSet(acc)
+          \* only the plain send may truncate: it must have been called as such
+          /\ E.item \in DOMAIN kind /\ kind[E.item] = "send"
           /\ \/ closing                    \* racing with a drop: either outcome
              \/ E.pushed = Open
           /\ IF E.pushed
@@ -96,21 +108,22 @@ Send ==
           /\ E.qlen = Len(queue')
           /\ Len(queue') <= cap
     /\ UNCHANGED <<cap, done, batch, cur, phase, lastRem, attempts, lastWait, reg, fired,
-                   closing, senderGone, recvGone, exited>>
+                   closing, senderGone, recvGone, exited, kind>>
 
 (* C09: the fallible send enqueues iff there is room, never discards anything *)
 TrySend ==
     /\ IsEv("TrySend")
     /\ E.item \notin SeqSet(acc)
+    /\ E.item \in DOMAIN kind /\ kind[E.item] \in {"try", "block"}
     /\ \/ /\ E.code = 0 /\ Len(queue) < cap /\ (Open \/ closing)
           /\ queue' = Append(queue, E.item) /\ acc' = Append(acc, E.item)
        \/ /\ E.code = 1 /\ Len(queue) >= cap /\ (Open \/ closing)
-          /\ UNCHANGED <<queue, acc>>
+          /\ UNCHANGED <<queue, acc, kind>>
        \/ /\ E.code = 2 /\ (~Open \/ closing)
-          /\ UNCHANGED <<queue, acc>>
+          /\ UNCHANGED <<queue, acc, kind>>
     /\ E.qlen = Len(queue')
     /\ UNCHANGED <<cap, done, trunc, ntrunc, batch, cur, phase, lastRem, attempts, lastWait,
-                   reg, fired, closing, senderGone, recvGone, exited>>
+                   reg, fired, closing, senderGone, recvGone, exited, kind>>
 
 (* C09: fallible / blocking sends either enqueued the item or handed it back *)
 SendRet ==
@@ -120,14 +133,14 @@ SendRet ==
     /\ E.res \in {"ok", "err-full-returned", "err-closed", "sent"}
     /\ E.res = "err-closed" => (~Open \/ closing)
     /\ UNCHANGED <<cap, queue, acc, done, trunc, ntrunc, batch, cur, phase, lastRem, attempts,
-                   lastWait, reg, fired, closing, senderGone, recvGone, exited>>
+                   lastWait, reg, fired, closing, senderGone, recvGone, exited, kind>>
 
 FlushReq ==
     /\ IsEv("FlushReq")
     /\ E.w \notin DOMAIN reg
     /\ reg' = (E.w :> [items |-> SeqSet(acc), obs |-> E.obs]) @@ reg
     /\ UNCHANGED <<cap, queue, acc, done, trunc, ntrunc, batch, cur, phase, lastRem, attempts,
-                   lastWait, fired, closing, senderGone, recvGone, exited>>
+                   lastWait, fired, closing, senderGone, recvGone, exited, kind>>
 
 (* C07: a flush reports completion only when everything accepted before the request has
    finished its final attempt or was truncated (while the receiver is alive) *)
@@ -141,14 +154,14 @@ Fired ==
     /\ Flushed(E.w)
     /\ fired' = fired \cup {E.w}
     /\ UNCHANGED <<cap, queue, acc, done, trunc, ntrunc, batch, cur, phase, lastRem, attempts,
-                   lastWait, reg, closing, senderGone, recvGone, exited>>
+                   lastWait, reg, closing, senderGone, recvGone, exited, kind>>
 
 FlushRet ==
     /\ IsEv("FlushRet")
     /\ E.w \in DOMAIN reg
     /\ E.ret => Flushed(E.w)
     /\ UNCHANGED <<cap, queue, acc, done, trunc, ntrunc, batch, cur, phase, lastRem, attempts,
-                   lastWait, reg, fired, closing, senderGone, recvGone, exited>>
+                   lastWait, reg, fired, closing, senderGone, recvGone, exited, kind>>
 
 (* C06: the receiver takes exactly the pending queue, and only when the previous batch is
    finished: batches partition the accepted sequence in order *)
@@ -159,14 +172,14 @@ Take ==
     /\ batch' = queue /\ queue' = <<>>
     /\ phase' = "taken" /\ attempts' = 0 /\ lastWait' = 0
     /\ UNCHANGED <<cap, acc, done, trunc, ntrunc, cur, lastRem, reg, fired, closing,
-                   senderGone, recvGone, exited>>
+                   senderGone, recvGone, exited, kind>>
 
 TakeEmpty ==
     /\ IsEv("TakeEmpty")
     /\ phase = "idle" /\ ~exited
     /\ queue = <<>>
     /\ UNCHANGED <<cap, queue, acc, done, trunc, ntrunc, batch, cur, phase, lastRem, attempts,
-                   lastWait, reg, fired, closing, senderGone, recvGone, exited>>
+                   lastWait, reg, fired, closing, senderGone, recvGone, exited, kind>>
 
 (* C06: the first attempt gets exactly the batch taken; a retry gets exactly the remainder
    the processor returned.  C08: bounded attempts. *)
@@ -179,7 +192,7 @@ Call ==
     /\ attempts' <= MaxAttempts
     /\ phase' = "inflight"
     /\ UNCHANGED <<cap, queue, acc, done, trunc, ntrunc, batch, lastRem, lastWait, reg, fired,
-                   closing, senderGone, recvGone, exited>>
+                   closing, senderGone, recvGone, exited, kind>>
 
 \* The processor's result.  After a retryable failure with a non-empty remainder the receiver
 \* either retries or gives up (its budget is not part of the statement): both are allowed,
@@ -194,7 +207,7 @@ Ret ==
        \/ /\ phase' = "idle" /\ lastRem' = <<>>
           /\ done' = done \cup SeqSet(cur)
     /\ UNCHANGED <<cap, queue, acc, trunc, ntrunc, batch, cur, attempts, lastWait, reg, fired,
-                   closing, senderGone, recvGone, exited>>
+                   closing, senderGone, recvGone, exited, kind>>
 
 (* C08: bounded, non-decreasing back-off between the attempts of one batch *)
 Wait ==
@@ -204,13 +217,13 @@ Wait ==
        THEN /\ E.ms >= lastWait /\ lastWait' = E.ms
        ELSE /\ phase = "idle" /\ lastWait' = lastWait
     /\ UNCHANGED <<cap, queue, acc, done, trunc, ntrunc, batch, cur, phase, lastRem, attempts,
-                   reg, fired, closing, senderGone, recvGone, exited>>
+                   reg, fired, closing, senderGone, recvGone, exited, kind>>
 
 Closing ==
     /\ IsEv("Closing")
     /\ closing' = TRUE
     /\ UNCHANGED <<cap, queue, acc, done, trunc, ntrunc, batch, cur, phase, lastRem, attempts,
-                   lastWait, reg, fired, senderGone, recvGone, exited>>
+                   lastWait, reg, fired, senderGone, recvGone, exited, kind>>
 
 Closed ==
     /\ IsEv("Closed")
@@ -218,7 +231,7 @@ Closed ==
     /\ IF E.by = "sender" THEN senderGone' = TRUE /\ recvGone' = recvGone
                           ELSE recvGone' = TRUE /\ senderGone' = senderGone
     /\ UNCHANGED <<cap, queue, acc, done, trunc, ntrunc, batch, cur, phase, lastRem, attempts,
-                   lastWait, reg, fired, exited>>
+                   lastWait, reg, fired, exited, kind>>
 
 (* C08: exec returns only after the sender is gone, with nothing queued or in flight *)
 Exit ==
@@ -226,7 +239,7 @@ Exit ==
     /\ senderGone /\ queue = <<>> /\ phase = "idle"
     /\ exited' = TRUE
     /\ UNCHANGED <<cap, queue, acc, done, trunc, ntrunc, batch, cur, phase, lastRem, attempts,
-                   lastWait, reg, fired, closing, senderGone, recvGone>>
+                   lastWait, reg, fired, closing, senderGone, recvGone, kind>>
 
 (* end of a trace; a terminal trace (sender dropped, receiver ran to completion) must have
    processed everything and fired every callback exactly once *)
@@ -237,10 +250,10 @@ End ==
           /\ \A i \in SeqSet(acc) : i \in done \cup trunc
           /\ \A w \in DOMAIN reg : reg[w].obs => w \in fired
     /\ UNCHANGED <<cap, queue, acc, done, trunc, ntrunc, batch, cur, phase, lastRem, attempts,
-                   lastWait, reg, fired, closing, senderGone, recvGone, exited>>
+                   lastWait, reg, fired, closing, senderGone, recvGone, exited, kind>>
 
 Next ==
-    \/ Reset \/ Send \/ TrySend \/ SendRet \/ FlushReq \/ Fired \/ FlushRet \/ Take \/ TakeEmpty
+    \/ Reset \/ SendCall \/ Send \/ TrySend \/ SendRet \/ FlushReq \/ Fired \/ FlushRet \/ Take \/ TakeEmpty
     \/ Call \/ Ret \/ Wait \/ Closing \/ Closed \/ Exit \/ End
 
 Spec == Init /\ [][Next]_vars
